@@ -148,6 +148,16 @@ Proof.
   unfold search_all, exists_count, zrange. rewrite label_from_fst, map_length. f_equal. lia.
 Qed.
 
+Lemma zskipn_0 {A} (l : list A) : zskipn 0 l = l.
+Proof. destruct l; reflexivity. Qed.
+
+Lemma zfirstn_all {A} (l : list A) : forall k, Z.of_nat (length l) <= k -> zfirstn k l = l.
+Proof.
+  induction l as [|x l IH]; intros k H; [reflexivity|]. cbn [zfirstn].
+  cbn [length] in H. rewrite Nat2Z.inj_succ in H.
+  replace (k <=? 0) with false by (symmetry; apply Z.leb_gt; lia). f_equal. apply IH. lia.
+Qed.
+
 Lemma fetch_all_rows uids : fetch_inline (S_ "1:*") uids = Some (label_from 1 uids).
 Proof.
   unfold fetch_inline. change (split_byte (S_ "1:*") c_colon) with [S_ "1"; S_ "*"].
@@ -156,10 +166,9 @@ Proof.
   cbv beta iota. rewrite B1, B2. cbv zeta. change (1 =? -1) with false. cbv iota.
   destruct (Z.of_nat (length uids) <? 1) eqn:E.
   - apply Z.ltb_lt in E. destruct uids; [reflexivity | simpl in E; lia].
-  - apply Z.ltb_ge in E. unfold sql_limit_offset. change (Z.to_nat (1 - 1)) with 0%nat. cbn [skipn].
+  - apply Z.ltb_ge in E. unfold sql_limit_offset. change (1 - 1) with 0. rewrite zskipn_0.
     replace (Z.of_nat (length uids) - 1 + 1 <? 0) with false by (symmetry; apply Z.ltb_ge; lia).
-    replace (Z.to_nat (Z.of_nat (length uids) - 1 + 1)) with (length uids) by lia.
-    now rewrite firstn_all.
+    now rewrite zfirstn_all by lia.
 Qed.
 
 (** rank by COUNT(uid' <= uid) is the position, for strictly ascending uids *)
